@@ -90,7 +90,8 @@ func (h *harness) report(sub string, cmd string, c rw.Ctx, label, id string, fs 
 		if f.kind == "read-unknown-command" {
 			// one call site, one stable key: the command is missing from
 			// the reader's table whatever the version, network or encoding
-			key = fmt.Sprintf("a/framing/%s/read-unknown-command", cmd)
+			// (sub is "framing" for the v1 reader, "framing-v2" for BIP324)
+			key = fmt.Sprintf("a/%s/%s/read-unknown-command", sub, cmd)
 		}
 		h.r.Violation(key, fmt.Sprintf("%s %q pver=%d enc=%s value %s#%s: %s", sub, cmd, c.Pver, encName(c), label, id, f.what), rp)
 	}
@@ -185,6 +186,18 @@ func (h *harness) runValueCase(vc *valCase, idx int) {
 			fctx = append(fctx, rw.Ctx{Pver: latest, Witness: true})
 		}
 		fnets = nets[:1]
+	}
+	for _, c := range fctx {
+		c := c
+		fs := checkFramingV2(vc, c)
+		r.Eval(1)
+		r.Trace(1)
+		r.Add("a_framing_v2_cases", 1)
+		r.Nontrivial(fmt.Sprintf("f2|%s|%d|%v|%s", vc.cmd, c.Pver, c.Witness, id))
+		if len(fs) > 0 {
+			h.report("framing-v2", vc.cmd, c, vc.label, id, fs, func() []finding { return checkFramingV2(vc, c) },
+				func() aReplay { return h.valueReplay("framing-v2", vc, c, 0) })
+		}
 	}
 	for _, c := range fctx {
 		for _, net := range fnets {
@@ -467,7 +480,7 @@ func replay(r *ev.Run, h *harness, tmp string) {
 	c := rw.Ctx{Pver: rp.Pver, Witness: rp.Witness}
 	var fs []finding
 	switch rp.Sub {
-	case "value", "framing", "txapi", "blockapi":
+	case "value", "framing", "framing-v2", "txapi", "blockapi":
 		var v Rec
 		if rp.Value != nil {
 			v = recFromJSON(rp.Value).(Rec)
@@ -484,6 +497,8 @@ func replay(r *ev.Run, h *harness, tmp string) {
 			fs = checkValue(vc, c)
 		case "framing":
 			fs = checkFraming(vc, c, wire.BitcoinNet(rp.Net))
+		case "framing-v2":
+			fs = checkFramingV2(vc, c)
 		case "txapi":
 			fs = checkTxExtras(v.R("tx"))
 		case "blockapi":
@@ -511,7 +526,7 @@ func replay(r *ev.Run, h *harness, tmp string) {
 	for _, f := range fs {
 		key := fmt.Sprintf("a/%s/%s/%s/replay", rp.Sub, rp.Cmd, f.kind)
 		if f.kind == "read-unknown-command" {
-			key = fmt.Sprintf("a/framing/%s/read-unknown-command", rp.Cmd)
+			key = fmt.Sprintf("a/%s/%s/read-unknown-command", rp.Sub, rp.Cmd)
 		}
 		r.Violation(key, f.what, rp)
 	}
